@@ -17,13 +17,20 @@
 //                same error, invoke no callback, leave the circuit equal).
 //   C  lengths:  every length-checked setter with every length 0..n+2.
 //   D  nets:     addNet / setNets with pin cells -2..n+1, inconsistent lengths, malformed limits.
+//   E  expansion: expandCellsByFactor with every length 0..n+2, factors around 0.999f / 1 (one ulp), both at once,
+//                unvalidated maxDensity / rowSideMargin; expandCellsToDensity with targets <= 0, in (0,1), >= 1,
+//                negative margins / maximum widths (nothing is validated: observed, compared with the model);
+//                computeCellExpansion with fixedPenalty / penaltyFactor one ulp below / at their bounds;
+//                mean/rms/maxDisruption with every wrong length of either solution.
+//   F  constructor: Circuit(n) for negative n down to INT_MIN (std::length_error expected from std::vector) and small n >= 0.
 //
 // Correspondence: drv_C19 evaluates the translated check predicates (Gen/Params), the
-// constructor event lists and the setter IR (Gen/Api under Model/Busy) on the same op lines.
+// constructor event lists and the setter IR (Gen/Api, Gen/ApiExpansion under Model/Busy) on the same op lines.
 // Direct oracle: hand-written expectations below (independent of the translator).
 //
 //   h_C19 --dump-defaults   prints the nine default parameter sets as exact numbers (used by
 //                           tools/gen/Params.py to build the Lean table).
+#include <cfloat>
 #include <climits>
 #include <cmath>
 #include <type_traits>
@@ -406,6 +413,8 @@ struct SetterOp {
   std::function<void(Circuit &)> run;
   bool expectThrow;
   std::string how;
+  bool unspecified = false;    // no expectation either way (the property does not say): correspondence and crash only
+  std::string verb = "set";    // "xset": tables of Gen/ApiExpansion
 };
 
 std::string vecShape(size_t len) { return "v " + std::to_string(len) + " 0"; }
@@ -418,8 +427,8 @@ std::string vecVals(const std::vector<int> &v) {
 void setterItem(Runner &R, const std::string &caseId, const Circuit &base, const SetterOp &op) {
   Item it;
   it.caseId = caseId;
-  it.ops = {"set " + op.name + " " + std::to_string(base.nbCells()) + " " + std::to_string(base.nbNets()) + " " + op.args};
-  it.tag = "set " + op.name;
+  it.ops = {op.verb + " " + op.name + " " + std::to_string(base.nbCells()) + " " + std::to_string(base.nbNets()) + " " + op.args};
+  it.tag = op.verb + " " + op.name;
   it.input = op.how;
   it.onCrash = op.name + " aborts / has undefined behaviour instead of throwing: " + op.how;
   it.run = [base, op]() {
@@ -436,8 +445,8 @@ void setterItem(Runner &R, const std::string &caseId, const Circuit &base, const
     }
     bool changed = snap(c) != before;
     r.impl = outcome + (outcome == "ok" ? "" : (changed ? " changed" : " w=0"));
-    if (op.expectThrow && outcome == "ok") r.fails.push_back(op.name + " accepted " + op.how);
-    if (!op.expectThrow && outcome != "ok") r.fails.push_back(op.name + " refused (" + outcome + ") " + op.how);
+    if (!op.unspecified && op.expectThrow && outcome == "ok") r.fails.push_back(op.name + " accepted " + op.how);
+    if (!op.unspecified && !op.expectThrow && outcome != "ok") r.fails.push_back(op.name + " refused (" + outcome + ") " + op.how);
     if (outcome != "ok" && changed) r.fails.push_back(op.name + " threw but modified the circuit: " + op.how);
     if (outcome == "ok") {
       // what was accepted must be usable: consistency check and a wirelength evaluation (under the sanitizers)
@@ -541,6 +550,153 @@ void netOps(std::vector<SetterOp> &ops, const Circuit &c, vh::Rng &g) {
   if (w.size() >= 2) { auto v = w; v.pop_back(); setNetsOp(lim, pc, px, py, v, "setNets with one weight missing"); }
 }
 
+// ------------------------------------------------------------------ E: expansion API, Disruption methods
+std::string vecF(const std::vector<float> &v) {
+  std::string s = "vf " + std::to_string(v.size());
+  for (float x : v) s += " " + vc::exactDouble((double)x);
+  return s;
+}
+std::string fStr(float x) {
+  char b[64];
+  snprintf(b, sizeof b, "%a", (double)x);
+  return b;
+}
+
+void expansionOps(std::vector<SetterOp> &ops, const Circuit &c, vh::Rng &g, vh::Out &out) {
+  int n = c.nbCells();
+  std::string ncells = " for " + std::to_string(n) + " cells";
+  auto X = [&](SetterOp op) { op.verb = "xset"; ops.push_back(std::move(op)); };
+  static const float okF[] = {1.0f, 1.25f, 1.5f, 2.0f};
+  auto validFactors = [&](int len) {
+    std::vector<float> v(len);
+    for (float &x : v) x = okF[g.range(0, 3)];
+    return v;
+  };
+  // expandCellsByFactor: every length 0..n+2, factors valid
+  for (int len = 0; len <= n + 2; ++len) {
+    std::vector<float> v = validFactors(len);
+    X({"expandCellsByFactor", vecF(v) + " i 0 i 0", [=](Circuit &k) { k.expandCellsByFactor(v); }, len != n,
+       "a factor vector of length " + std::to_string(len) + ncells});
+  }
+  if (n > 0) {
+    // factors around the tolerance 0.999f of the documented minimum 1 (hand-written: below 0.999f must be refused,
+    // 1 and above must be accepted, [0.999f, 1) is the tolerance: no expectation)
+    const float lim = 0.999f;
+    const float specials[] = {0.9989f, std::nextafterf(lim, 0.0f), lim, std::nextafterf(lim, 2.0f), std::nextafterf(1.0f, 0.0f), 1.0f,
+                              std::nextafterf(1.0f, 2.0f), 0.0f, -0.0f, -1.0f, 0.5f, 1e-45f, -FLT_MAX, 1000.0f};
+    for (float sv : specials) {
+      std::vector<float> v = validFactors(n);
+      v[g.range(0, n - 1)] = sv;
+      bool refuse = sv < lim;
+      SetterOp op{"expandCellsByFactor", vecF(v) + " i 0 i 0", [=](Circuit &k) { k.expandCellsByFactor(v); }, refuse,
+                  "a factor " + fStr(sv) + " among the factors" + ncells};
+      op.unspecified = !refuse && sv < 1.0f;
+      X(op);
+      out.count(refuse ? "factor_below_tolerance" : (op.unspecified ? "factor_in_tolerance" : "factor_valid"));
+    }
+    {
+      std::vector<float> v = validFactors(n + 1);
+      v[g.range(0, n)] = 0.5f;
+      X({"expandCellsByFactor", vecF(v) + " i 0 i 0", [=](Circuit &k) { k.expandCellsByFactor(v); }, true,
+         "a factor vector of length " + std::to_string(n + 1) + " with a factor 0.5" + ncells});
+    }
+    // maxDensity / rowSideMargin are not validated: observed only
+    static const double dens[] = {1.0, 0.5, 0.0, -1.0, 2.0}, marg[] = {0.0, 1.0, -1.0};
+    for (int j = 0; j < 3; ++j) {
+      double md = dens[g.range(0, 4)], mg = marg[g.range(0, 2)];
+      std::vector<float> v = validFactors(n);
+      SetterOp op{"expandCellsByFactor", vecF(v) + " i 0 i 0", [=](Circuit &k) { k.expandCellsByFactor(v, md, mg); }, false,
+                  "valid factors with maxDensity " + valStr(md) + ", rowSideMargin " + valStr(mg)};
+      op.unspecified = true;
+      X(op);
+      out.count("factor_unvalidated_scalars");
+    }
+  }
+  // expandCellsToDensity validates nothing: observed only (the model says: never refused)
+  {
+    struct D { double t, m, w; };
+    std::vector<D> ds = {{-1, 0, 1}, {0, 0, 1}, {0.5, 0, 1}, {0.9, 0, 1}, {1, 0, 1}, {2, 0, 1}};
+    static const double ts[] = {-1, 0, 0.5, 0.9, 1, 2}, ms[] = {0, 1, -1}, ws[] = {1, 0.5, 0, -1};
+    for (int j = 0; j < 3; ++j) ds.push_back({ts[g.range(0, 5)], ms[g.range(0, 2)], ws[g.range(0, 3)]});
+    for (D d : ds) {
+      SetterOp op{"expandCellsToDensity", "i 0 i 0 i 0", [=](Circuit &k) { k.expandCellsToDensity(d.t, d.m, d.w); }, false,
+                  "targetDensity " + valStr(d.t) + ", rowSideMargin " + valStr(d.m) + ", maxExpandedWidth " + valStr(d.w)};
+      op.unspecified = true;
+      X(op);
+      out.count(d.t <= 0 ? "density_target_nonpositive" : (d.t < 1 ? "density_target_in_range" : "density_target_ge_1"));
+    }
+  }
+  // computeCellExpansion: fixedPenalty >= 0, penaltyFactor >= 1
+  {
+    std::vector<std::pair<Rectangle, float>> cmap = {{Rectangle(-100, 100, -100, 100), 1.5f}};
+    struct P { float fp, pf; };
+    const P ps[] = {{0.0f, 1.0f}, {-0.0f, 1.0f}, {std::nextafterf(0.0f, -1.0f), 1.0f}, {-1.0f, 1.0f}, {0.0f, std::nextafterf(1.0f, 0.0f)},
+                    {0.0f, 0.999f}, {0.0f, 0.0f}, {0.0f, -1.0f}, {0.5f, 2.0f}, {-1.0f, 0.5f}, {1e-45f, std::nextafterf(1.0f, 2.0f)}};
+    for (P p : ps) {
+      bool refuse = p.fp < 0.0f || p.pf < 1.0f;
+      X({"computeCellExpansion", "v 1 0 f " + vc::exactDouble((double)p.fp) + " f " + vc::exactDouble((double)p.pf),
+         [=](Circuit &k) { (void)k.computeCellExpansion(cmap, p.fp, p.pf); }, refuse,
+         "fixedPenalty " + fStr(p.fp) + ", penaltyFactor " + fStr(p.pf)});
+      out.count(refuse ? "cell_expansion_invalid" : "cell_expansion_valid");
+    }
+  }
+  // Disruption methods: every wrong length of either solution
+  {
+    std::vector<std::pair<int, int>> lens;
+    for (int l = 0; l <= n + 2; ++l) { lens.push_back({l, n}); if (l != n) lens.push_back({n, l}); }
+    lens.push_back({n + 1, n + 1});
+    if (n > 0) lens.push_back({0, 0});
+    static const char *nm[] = {"meanDisruption", "rmsDisruption", "maxDisruption"};
+    for (int m = 0; m < 3; ++m) {
+      for (auto [la, lb] : lens) {
+        bool bad = la != n || lb != n;
+        if (!bad && n == 0 && m == 2) { out.count("maxDisruption_valid_call_on_0_cells_skipped"); continue; }
+        PlacementSolution a(la, CellPlacement(0, 0, CellOrientation::N)), b(lb, CellPlacement(0, 0, CellOrientation::N));
+        if (!bad) {
+          a = c.solution();
+          b = a;
+          for (auto &p : b) { p.position.x += 1; p.position.y -= 2; }
+        }
+        X({nm[m], vecShape(la) + " " + vecShape(lb) + " i 0",
+           [=](Circuit &k) {
+             if (m == 0) (void)k.meanDisruption(a, b, LegalizationModel::L1);
+             else if (m == 1) (void)k.rmsDisruption(a, b, LegalizationModel::L1);
+             else (void)k.maxDisruption(a, b, LegalizationModel::L1);
+           },
+           bad, "solutions of lengths " + std::to_string(la) + " and " + std::to_string(lb) + ncells});
+      }
+    }
+  }
+}
+
+// ------------------------------------------------------------------ F: constructor
+void ctorItem(Runner &R, const std::string &caseId, int n) {
+  Item it;
+  it.caseId = caseId;
+  it.ops = {"newcircuit " + std::to_string(n)};
+  it.tag = "newcircuit";
+  it.input = "Circuit(" + std::to_string(n) + ")";
+  it.onCrash = it.input + " aborts / has undefined behaviour instead of throwing";
+  it.run = [n]() {
+    Result r;
+    try {
+      Circuit c(n);
+      r.impl = "ok";
+      if (c.nbCells() != n) r.fails.push_back("Circuit(" + std::to_string(n) + ") has " + std::to_string(c.nbCells()) + " cells");
+    } catch (const std::length_error &) {
+      r.impl = "throw:length_error";
+    } catch (const std::exception &e) {
+      r.impl = vc::exClass(e);
+    } catch (...) {
+      r.impl = "throw:other";
+    }
+    if (n < 0 && r.impl == "ok") r.fails.push_back("Circuit accepts the negative cell count " + std::to_string(n));
+    if (n >= 0 && r.impl != "ok") r.fails.push_back("Circuit refuses the cell count " + std::to_string(n) + ": " + r.impl);
+    return r;
+  };
+  R.add(std::move(it));
+}
+
 }  // namespace
 
 int main(int argc, char **argv) {
@@ -560,7 +716,10 @@ int main(int argc, char **argv) {
              "for invalid efforts; B: every field at just-below/at/just-above each translated check bound, int-int comparisons, "
              "enum and bool values, random combinations of 1-3 perturbed fields, rejected sets passed to the 3 placement calls; "
              "C: the 10 length-checked setters x lengths 0..n+2 on random circuits; D: addNet/setNets with pin cells -2..n+1, "
-             "inconsistent lengths, malformed limits.  non-trivial = evaluation whose input is invalid (must be refused); "
+             "inconsistent lengths, malformed limits; E: expandCellsByFactor x lengths 0..n+2 and factors one ulp around 0.999f and 1, "
+             "expandCellsToDensity / maxDensity / margins with nonsense values (unvalidated: observed), computeCellExpansion at its "
+             "two bounds, the 3 Disruption methods x every wrong length of either solution; F: Circuit(n) for negative n down to "
+             "INT_MIN.  non-trivial = evaluation whose input is invalid (must be refused); "
              "distinct by op text";
   Runner R(out);
   long long caseNo = 0;
@@ -695,17 +854,37 @@ int main(int argc, char **argv) {
       std::vector<SetterOp> ops;
       lengthOps(ops, c);
       netOps(ops, c, g);
+      size_t nSetterOps = ops.size();
+      expansionOps(ops, c, g, out);
       std::string id = nextCase("s");
-      for (auto &op : ops) {
+      for (size_t k = 0; k < ops.size(); ++k) {
+        auto &op = ops[k];
         setterItem(R, id, c, op);
-        out.count(op.expectThrow ? "setter_invalid" : "setter_valid");
-        if (op.expectThrow) noteNontrivial(std::to_string(i) + op.name + op.args);
+        if (k < nSetterOps) out.count(op.expectThrow ? "setter_invalid" : "setter_valid");
+        else out.count(op.unspecified ? "expansion_unspecified" : (op.expectThrow ? "expansion_invalid" : "expansion_valid"));
+        if (op.expectThrow && !op.unspecified) noteNontrivial(std::to_string(i) + op.name + op.args);
       }
       R.flush();
       if (i == 0) out.sample("circuit with " + std::to_string(c.nbCells()) + " cells, " + std::to_string(c.nbNets()) + " nets: " + std::to_string(ops.size()) + " setter calls");
     }
   }
   R.flush();
+
+  // ---- F
+  {
+    std::vector<int> counts = {-1, -2, -3, -16, -1000, -(1 << 30), INT_MIN + 1, INT_MIN, 0, 1, 2, 7, 64};
+    vh::Rng g = vh::Rng::forCase(a.seed, 4000000);
+    int nr = a.thorough() ? 300 : (a.search() ? 100 : 30);
+    for (int i = 0; i < nr; ++i) counts.push_back(-(int)(g.next() % 2147483648u) - 1);
+    std::string id = nextCase("n");
+    for (int n : counts) {
+      ctorItem(R, id, n);
+      out.count(n < 0 ? "ctor_negative" : "ctor_valid");
+      if (n < 0) noteNontrivial("Circuit " + std::to_string(n));
+    }
+    R.flush();
+    out.sample("Circuit(n): 8 fixed + " + std::to_string(nr) + " random negative counts, 5 small valid counts");
+  }
   out.finish();
   return 0;
 }
